@@ -49,3 +49,112 @@ Proof.
   pose proof (unwrap_base (p_ty p)) as Hb.
   destruct (unwrap (p_ty p)); try contradiction; destruct (p_default p) as [|[]|]; reflexivity.
 Qed.
+
+(* ------------------------------------------------------------------ *)
+(* DECLARED field types: the fields of a generic class are declared with type variables; OptProj.fty
+   (p_ty) is the type the variable stands for in the specialisation at hand.  That the translated
+   is_field_nullable, run on the declared type, answers for the RESOLVED type is proved here instead of
+   being part of the encoding (before /repo 4da7e9e it did not: the tests looked at the variable itself). *)
+Inductive dty :=
+| DTy (t: fty)              (* a type expression without variables at the positions is_field_nullable inspects;
+                               DTy TyTypeVarAny = a variable left unbound, without bound / constraints / default *)
+| DVar (b: fty)             (* a type variable that the specialisation binds to b *)
+| DVarBound (b: fty)        (* a type variable left unbound, declared TypeVar(..., bound=b): values are packed as b *)
+| DAnnotated (d: dty)       (* Annotated[d, ...] *)
+| DFinal (d: dty).          (* Final[d] *)
+
+Fixpoint resolve (d: dty) : fty :=
+  match d with
+  | DTy t => t | DVar b => b | DVarBound b => b
+  | DAnnotated u => TyAnnotated (resolve u) | DFinal u => TyFinal (resolve u) end.
+
+Fixpoint enc_dty (d: dty) : kv :=
+  match d with
+  | DTy t => enc_fty t
+  | DVar b => KTuple [KStr "TypeVar"; enc_fty b]
+  | DVarBound b => KTuple [KStr "TypeVarBound"; enc_fty b]
+  | DAnnotated u => KTuple [KStr "Annotated"; enc_dty u]
+  | DFinal u => KTuple [KStr "Final"; enc_dty u] end.
+
+(* domain: a type argument is a type mashumaro compiles a serializer for -- not Annotated / Final at its top
+   (Final is no type argument; a variable bound to Annotated[...] is rejected: UnserializableDataError) --
+   and variables are bound or unconstrained (the bounded, unbound variable: K17_bound_refuted) *)
+Definition bind_ok (b: fty) : bool :=
+  match b with TyAnnotated _ | TyFinal _ | TyFinalBare => false | _ => true end.
+Fixpoint dty_ok (d: dty) : bool :=
+  match d with
+  | DTy _ => true | DVar b => bind_ok b | DVarBound _ => false
+  | DAnnotated u | DFinal u => dty_ok u end.
+
+Definition with_ty (p: fplan) (t: fty) : fplan :=
+  {| p_name := p.(p_name); p_alias := p.(p_alias); p_ty := t; p_trivial := p.(p_trivial);
+     p_default := p.(p_default); p_omit := p.(p_omit) |}.
+
+Fixpoint dwraps (d: dty) : nat :=
+  match d with DTy t => wraps t | DAnnotated u | DFinal u => S (dwraps u) | _ => O end.
+Fixpoint dunwrap (d: dty) : dty :=
+  match d with DTy t => DTy (unwrap t) | DAnnotated u | DFinal u => dunwrap u | _ => d end.
+
+Lemma dwraps_depth d : (dwraps d <= kv_depth (enc_dty d))%nat.
+Proof.
+  induction d; cbn [dwraps enc_dty]; try (cbn [kv_depth]; lia).
+  apply wraps_depth.
+Qed.
+
+Lemma iter_dunwrap : forall d n, (dwraps d < n)%nat ->
+  k_iter n is_field_nullable_step (enc_dty d) = Ok (enc_dty (dunwrap d)).
+Proof.
+  induction d; intros n Hn.
+  - cbn [dwraps] in Hn. cbn [enc_dty dunwrap]. apply iter_unwrap. exact Hn.
+  - destruct n as [|n]; [lia|]. reflexivity.
+  - destruct n as [|n]; [lia|]. reflexivity.
+  - cbn [dwraps] in Hn. destruct n as [|n]; [lia|]. cbn [k_iter].
+    change (is_field_nullable_step (enc_dty (DAnnotated d))) with (Ok (Some (enc_dty d)) : res (option kv)).
+    cbn [dunwrap]. apply IHd. lia.
+  - cbn [dwraps] in Hn. destruct n as [|n]; [lia|]. cbn [k_iter].
+    change (is_field_nullable_step (enc_dty (DFinal d))) with (Ok (Some (enc_dty d)) : res (option kv)).
+    cbn [dunwrap]. apply IHd. lia.
+Qed.
+
+Lemma resolve_dunwrap d : unwrap (resolve d) = unwrap (resolve (dunwrap d)).
+Proof.
+  induction d; cbn [resolve dunwrap unwrap]; auto.
+  induction t; cbn [unwrap]; auto.
+Qed.
+
+Lemma dty_ok_dunwrap d : dty_ok d = dty_ok (dunwrap d).
+Proof. induction d; cbn [dty_ok dunwrap]; auto. Qed.
+
+Lemma dunwrap_base d :
+  match dunwrap d with
+  | DAnnotated _ | DFinal _ => False
+  | DTy t => match t with TyAnnotated _ | TyFinal _ => False | _ => True end
+  | _ => True end.
+Proof. induction d; cbn [dunwrap]; auto. apply unwrap_base. Qed.
+
+(* the translated predicate on the DECLARED type = the model's `nullable` of the plan with the RESOLVED type *)
+Theorem K17_nullable_declared_lemma : forall (p: fplan) (d: dty), dty_ok d = true ->
+  is_field_nullable (enc_default p.(p_default)) (enc_dty d) = Ok (KBool (nullable (with_ty p (resolve d)))).
+Proof.
+  intros p d Hok. unfold is_field_nullable.
+  rewrite iter_dunwrap by (pose proof (dwraps_depth d); lia).
+  unfold nullable, p_tynull, ty_nullable. cbn [with_ty p_ty p_default bind].
+  rewrite resolve_dunwrap. rewrite dty_ok_dunwrap in Hok.
+  pose proof (dunwrap_base d) as Hb.
+  destruct (dunwrap d) as [t|b|b|u|u]; try contradiction; cbn [dty_ok] in Hok; try discriminate.
+  - cbn [resolve enc_dty]. destruct t; try contradiction; destruct (p_default p) as [|[]|]; reflexivity.
+  - cbn [resolve enc_dty]. destruct b; cbn [bind_ok] in Hok; try discriminate; destruct (p_default p) as [|[]|]; reflexivity.
+Qed.
+
+(* full statement (no domain predicate) is false: a variable left unbound whose bound admits None.  The packer
+   treats such a field as its bound (values are packed as Optional[int]: None is a conforming value), the
+   predicate looks at the variable and answers "not nullable" *)
+Theorem K17_bound_refuted_lemma :
+  ~ (forall (p: fplan) (d: dty),
+       is_field_nullable (enc_default p.(p_default)) (enc_dty d) = Ok (KBool (nullable (with_ty p (resolve d))))).
+Proof.
+  intros H.
+  specialize (H {| p_name := "gv"; p_alias := None; p_ty := TyPlain; p_trivial := true; p_default := DNo; p_omit := false |}
+                (DVarBound TyOptional)).
+  vm_compute in H. discriminate H.
+Qed.
